@@ -212,8 +212,12 @@ def run_executor(exe, driver, scen, trace, shards=NCPU, timeout_s=60, wall=3000,
                 f.write(l + "\n")
         parts.append((sp, "%s.part%d" % (trace, k)))
 
+    # the sanitizer build has much larger stack frames: recursion that fits comfortably in the default 8 MB stack of a
+    # release build (e.g. the 6500-operand sum that fills 64 KiB) would be reported as a stack overflow - give it 1 GiB
+    prefix = ["prlimit", "--stack=1073741824:1073741824"] if "exe-asan" in exe else []
+
     def one(pt):
-        return sh([exe, driver, pt[0], pt[1], "--timeout", str(timeout_s), "--isolate", "1" if isolate else "0"], timeout=wall,
+        return sh(prefix + [exe, driver, pt[0], pt[1], "--timeout", str(timeout_s), "--isolate", "1" if isolate else "0"], timeout=wall,
                   env={"ASAN_OPTIONS": "detect_leaks=0:abort_on_error=0:exitcode=66", "UBSAN_OPTIONS": "print_stacktrace=1:halt_on_error=1:exitcode=67"})
     with cf.ThreadPoolExecutor(len(parts)) as ex:
         res = list(ex.map(one, parts))
